@@ -106,6 +106,11 @@ func oracleC03(cl *Classifier, in []byte, toks []vTok, res Results) []string {
 		if !(0 <= m.StartTokenIndex && m.StartTokenIndex <= m.EndTokenIndex && m.EndTokenIndex < len(toks)) {
 			out = append(out, fmt.Sprintf("token indices violate 0<=Start<=End<%d: %s", len(toks), vFmtMatch(m)))
 		}
+		// independent of the tokenizer: a word never spans white space, so there are at most as many
+		// words as white-space separated fields
+		if nf := len(bytes.Fields(in)); m.EndTokenIndex >= nf {
+			out = append(out, fmt.Sprintf("EndTokenIndex %d, but the input has only %d white-space separated words: %s", m.EndTokenIndex, nf, vFmtMatch(m)))
+		}
 	}
 	return out
 }
@@ -343,7 +348,8 @@ func corpusScale(c *vrep.Ctx, prop string) {
 // c03Bytes: byte-level inputs (line structure, copyright lines, dates,
 // markers) against small corpora.
 func c03Bytes(c *vrep.Ctx) {
-	syms := []string{"aa", "bb", "cc", "zqoov", "\n", "\r\n", "-\n", " ", "copyright 2000 foo\n", "2020-01-02\n", "1.", "(c)", "aa-"}
+	// incl. words glued by character references that stand for white space (one input word each)
+	syms := []string{"aa", "bb", "cc", "zqoov", "\n", "\r\n", "-\n", " ", "copyright 2000 foo\n", "2020-01-02\n", "1.", "(c)", "aa-", "aa&#32;bb&nbsp;cc", "aa&#x20;bb"}
 	maxLen := c.Pick(4, 5)
 	ts := []float64{0.05, 0.5, 0.8, 1.0}
 	corp := []int{0, 1, 8, 9, 11}
